@@ -17,11 +17,16 @@ TECHNIQUE = 'Lean 4 closed-form specification theorem (+ composition with C13) +
 
 
 def project(c, r):
+    if c.cmd == "UID":
+        return r
     return R.project(r, KEEP)
 
 
 def gen(ctx):
     rng = ctx.rng
+    # "a scope from a different compilation yields the stale-program error" rests on two compilations of one process never sharing a
+    # uid, however many lie between them (round 5: uid = pid << 16 | counter as u16 repeats after 65536 scope creations)
+    yield Case("UID", "seq 70000", tags=("uids-over-a-long-history",))
     for a in R.own_scope_cases(rng, 120 if ctx.thorough else 36):
         yield Case("RUN", a, tags=("own-scope",))
     for _ in range(40000 if ctx.thorough else 3000):
@@ -31,6 +36,8 @@ def gen(ctx):
 
 
 def classify(c, r):
+    if c.cmd == "UID":
+        return ["uid-seq:" + r.split(" ")[0]]
     parts = r.split(" | ")
     return ["events:%d" % min(len(parts) // 10 * 10, 80), "end:" + parts[-1].split(" ")[1]]
 
